@@ -271,6 +271,9 @@ func runC16(c *Ctx) {
 			if s.RHS == nil {
 				continue
 			}
+			if id, isId := ast.Unparen(s.RHS).(*ast.Ident); isId && u.C.BaseName(u.Info().ObjectOf(id)) == "dec" {
+				continue // handed on from a constructor helper's own `dec`, whose assignments are checked here too
+			}
 			n++
 			v := u.C.Term(s.RHS)
 			ok := strings.HasPrefix(v, "rafthttp.newMsgAppV2Decoder(p0") || strings.HasPrefix(v, "rafthttp.newMessageDecoder(p0")
@@ -285,6 +288,28 @@ func runC16(c *Ctx) {
 			r.Check("C16-M7", fn+": reads the stream with io.ReadFull / binary.Read only", "", len(bare) == 0, fmt.Sprintf("%d bare Read call(s): a short read yields a different message instead of an error", len(bare)))
 			full := u.Match(an.Call("io.ReadFull", "encoding/binary.Read"))
 			r.Min("C16-M7", len(full), 1, fn+": full reads")
+			// the stream is handed to nothing else: a wrapper (io.LimitReader, io.Copy, bufio) turns a short stream into
+			// a short buffer without an error
+			for _, s := range u.Sites {
+				if s.Kind != flow.SCall || s.Call == nil {
+					continue
+				}
+				uses := false
+				for _, a := range s.Call.Args {
+					if t := u.C.Term(a); t == "recv.r" || strings.HasPrefix(t, "recv.r.") {
+						uses = true
+					}
+				}
+				if sel, ok := ast.Unparen(s.Call.Fun).(*ast.SelectorExpr); ok && u.C.Term(sel.X) == "recv.r" {
+					uses = true
+				}
+				if !uses {
+					continue
+				}
+				name := an.CalleeName(s)
+				r.Check("C16-M7", fn+": the stream is consumed through io.ReadFull / binary.Read only", u.Pos(s.Pos), name == "io.ReadFull" || name == "encoding/binary.Read",
+					"the stream is passed to "+name+": a stream that ends early no longer produces an error there")
+			}
 		}
 	}
 	if u := c.unit("C16-M6", "transport/rafthttp.(*messageDecoder).decode"); u != nil {
